@@ -380,6 +380,14 @@ func GoNamed(name string, f func()) *Thread {
 		t := &Thread{id: -1, free: make(chan struct{})}
 		go func() {
 			defer close(t.free)
+			// a panic of a free-running thread would take the whole worker process down: keep it for the pass to report
+			defer func() {
+				if r := recover(); r != nil {
+					freeMu.Lock()
+					freePanics = append(freePanics, fmt.Sprintf("%v\n%s", r, debug.Stack()))
+					freeMu.Unlock()
+				}
+			}()
 			f()
 		}()
 		return t
@@ -410,6 +418,20 @@ func LiveLibraryThreads() []string {
 		}
 	}
 	return out
+}
+
+var (
+	freeMu     sync.Mutex
+	freePanics []string
+)
+
+// TakeFreePanics returns (and forgets) the panics of free-running threads since the last call.
+func TakeFreePanics() []string {
+	freeMu.Lock()
+	defer freeMu.Unlock()
+	p := freePanics
+	freePanics = nil
+	return p
 }
 
 // Join blocks until t has finished.
